@@ -181,6 +181,36 @@ def install(ctx):
         ip.path.effect('lock', lk.name, mode)
         return GuardT4(lk, mode, act)
 
+    prev_enable = M.table.get('Notified::enable')
+
+    @M.reg('Notified::enable')
+    def notified_enable(ip, pc, args, dt):
+        # tokio: "Adds this future to the list of futures that are ready to receive wakeups from calls to notify_one";
+        # returns true if the future is already complete (a stored permit is consumed / a notify_waiters was seen)
+        pin = args[0]
+        loc = pin.fields[0].loc if isinstance(pin, Agg) else pin.loc
+        v = read_loc(loc)
+        if not isinstance(v, NotifiedT4):
+            if prev_enable is None:
+                return bool_s(z3.BoolVal(False))
+            r = prev_enable(ip, pc, args, dt)
+            return r
+        yield from sched_point(ip, 'Notified::enable ' + v.notify.name)
+        n = v.notify
+        act = ip.activity
+        touch(ip.path, 'npoll', n.name)
+        if n.gen > v.gen:
+            return bool_s(z3.BoolVal(True))
+        if n.permit:
+            n.permit = False
+            v.gen = -1            # completed: the next poll is Ready
+            v.enabled_done = True
+            return bool_s(z3.BoolVal(True))
+        if act not in n.waiters:
+            n.waiters.append(act)
+        v.enabled = True
+        return bool_s(z3.BoolVal(False))
+
     prev_poll = M.table.get('<Future>::poll')
 
     @M.reg('<Future>::poll', 'Future::poll')
@@ -195,7 +225,7 @@ def install(ctx):
             touch(ip.path, 'npoll', n.name)
             if v.done:
                 raise PanicPath('panic', 'Notified polled after completion')
-            if n.gen > v.gen or getattr(act, 'notified_one', False):
+            if n.gen > v.gen or getattr(act, 'notified_one', False) or getattr(v, 'enabled_done', False):
                 v.done = True
                 act.notified_one = False
                 if act in n.waiters:
